@@ -189,6 +189,23 @@ CLAIMED = {
              'code after fixes 0dd80e4 (atomic save), 2324e37 (nested revival), 30e5325 (in-place updates saved), 8f9830c (from_json keeps tracking fields). No axioms.',
         technique='Coq proof: crash-state enumeration of a write protocol, dirty-flag invariant over operation traces, JSON revival round trip; I/O-primitive and dictionary-level trace validation with fault injection',
         design='6 (C19)'),
+    'C05': dict(
+        text='Coq theorems (Props/C05.v) over an executable model of the receive side (Model/Recv.v on top of the PDU and receipt models): '
+             '(1) for EVERY byte string, header and default alphabet, from_pdu followed by parse_receipt ends normally or with ValueError '
+             '(incl. UnicodeDecodeError), struct.error or KeyError - exactly the classes the handlers catch (the OverflowError branches of the '
+             'time parser are proved unreachable); (2) the reaction to a PDU never raises; every request with a recognised header is answered by '
+             'exactly one PDU echoing its sequence number - generic_nack(ESME_RINVCMDID) for unsupported commands, generic_nack(ESME_RSYSERR) for an '
+             'unparsable body, its own response otherwise - and responses are never answered; (3) for every byte stream of every length, with or '
+             'without EOF, the Receiver task keeps waiting, returns, or ends with an exception that _end_task swallows or the connect cycle catches '
+             '(the except clauses are generated from esme.py), and PDUs after an answered one are processed as if they came first. Tied to the code '
+             'by feeding generated and perturbed byte streams to the real ESME.start() on a virtual-time loop and comparing PDUs written, PDUs '
+             'handled and the way the Receiver task ended with the model; an oracle with an independent framer checks start() alive, one echoing '
+             'answer per request, and normal service after a reconnect.',
+        note='Trusted: Coq kernel, translator, harness (virtual-time loop, scripted SMSC over real asyncio streams). Outside the model: the stdlib '
+             'text codecs of data_coding 5,6,7,9,10,13,14 (oracle only) and the correlator calls after a successful parse (C02/C09/C14). Proved '
+             'for the code after fixes be2f32d, 66de80c, 4d29cd7, 205ac9b, cefdd18 (single-segment deliver_sm KeyError). No axioms.',
+        technique='Coq proof: exception-class closure of the parser by structural error-set lemmas, reaction case analysis, induction over the byte stream; trace correspondence of the real session on a virtual-time loop',
+        design='6 (C05)'),
 }
 
 PENDING_REASON = 'check not built yet in this round (planned, see DESIGN.md section 6); not claimed until its proof and correspondence run exist'
